@@ -4,6 +4,7 @@ CONSTANTS
   Design = "chain"
   SharedClosure = FALSE
   Kinds = {"value", "raise"}
+  PeelLosesError = FALSE
 INVARIANT NoViolation
 INVARIANT QuiescentOK
 INVARIANT TypeOK
